@@ -3289,39 +3289,50 @@ int  bufr_dataset_compressible( BUFR_Dataset *dts )
  * the above test should be enough, will skip the following test is slowing down very large dataset
 
 */
-#if 0
+/*
+ * compressed data hold one column per element: every subset must have the same structure, 
+ * position by position, and a character column that differs between subsets must be 
+ * expressible with the 6-bit width field (at most 63 octets)
+ */
       for (j = 0; j < count ; j++ )
          {
          coderef = bufr_datasubset_get_descriptor( subsetref, j );
-         if (next_31)
+         code = bufr_datasubset_get_descriptor( subset, j );
+         if (code->descriptor != coderef->descriptor)
+            return 0;
+         if ((code->flags ^ coderef->flags) & FLAG_SKIPPED)
+            return 0;
+         if (code->flags & FLAG_SKIPPED) 
+            continue;
+         if ((code->encoding.type != coderef->encoding.type)||
+             (code->encoding.nbits != coderef->encoding.nbits)||
+             (code->encoding.scale != coderef->encoding.scale)||
+             (code->encoding.reference != coderef->encoding.reference)||
+             (code->encoding.af_nbits != coderef->encoding.af_nbits))
+            return 0;
+         bufr_descriptor_to_fxy( coderef->descriptor, &f, &x, &y );
+         if ((f == 0)&&(x == 31)&&((y == 0)||(y == 1)||(y == 2)||(y == 11)||(y == 12)))
             {
-            next_31 = 0;
-            d2 = coderef->descriptor;
             nrep1 = bufr_descriptor_get_ivalue( coderef );
-            code = bufr_datasubset_get_descriptor( subset, j );
             nrep2 = bufr_descriptor_get_ivalue( code );
             if (nrep1 != nrep2) 
                {
                if (bufr_is_debug())
-                  {
-                  bufr_print_debug( _("### Dataset not compressible, delayed replication count differs\n"));
-                  sprintf( errmsg, "### %d  %d (0)=%d  (%d)=%d\n", d1, d2, nrep1, j, nrep2 );
-                  bufr_print_debug( errmsg );
-                  }
+                  bufr_print_debug( _("### Data not compressible: replication factors differ\n") );
                return 0;
                }
             }
-         else
+         else if ((coderef->encoding.type == TYPE_CCITT_IA5)&&(coderef->encoding.nbits/8 > 63))
             {
-            bufr_descriptor_to_fxy( coderef->descriptor, &f, &x, &y );
-            if ((f == 1)&&(y == 0))
-               {
-               d1 = coderef->descriptor;
-               next_31 = 1;
-               }
+            const char *s1, *s2;
+            int   l1, l2;
+
+            s1 = bufr_value_get_string( coderef->value, &l1 );
+            s2 = bufr_value_get_string( code->value, &l2 );
+            if ((s1 == NULL)||(s2 == NULL)||strbufrcmp( s1, s2, l1, l2, coderef->encoding.nbits/8 ))
+               return 0;
             }
          }
-#endif
       }
    return 1;
    }
